@@ -90,8 +90,10 @@ class Run:
     """one connection of a real Broker driven event by event.
     kinds: rx | rxbad | tick | close (at the given time, non-decreasing, same unit as K and T)."""
 
-    def __init__(self, K, T, exact=True, t0=0, with_call=0):
+    def __init__(self, K, T, exact=True, t0=0, with_call=0, stream=None):
         set_mode(exact)
+        self.stream = stream      # inbound bytes handed out chunk by chunk by rx events (None: every rx is one PONG byte)
+        self.spos = 0
         self.exact = exact
         if t0:
             E.clock.advance(t0)
@@ -123,6 +125,8 @@ class Run:
         self.nout0 = len(tr.out)
         o.trace = [self.pending()]
         o.counts = [(0, 0)]
+        o.payloads = []
+        o.kinds = []
         o.closed_at = None
 
     def pending(self):
@@ -134,7 +138,7 @@ class Run:
             return int(x)
         return x
 
-    def step(self, kind, t):
+    def step(self, kind, t, size=1):
         o, b = self.o, self.b
         if o.exc:
             return
@@ -148,10 +152,25 @@ class Run:
                     if t < E.clock.seconds():
                         raise ValueError("time goes backwards")
                     E.clock.rightNow = t
-                    if kind == "rx":
-                        b.dataReceived(PONG)
-                    elif kind == "rxbad":
-                        b.dataReceived(b"\x00" * 70)   # 65+ header bytes without a type byte: BananaError
+                    if kind in ("rx", "rxbad"):
+                        # RxBad = a chunk whose processing ends in a receive error (the connection is abandoned); decided
+                        # by what happened, because the same bytes are harmless in one receiver state and an error in
+                        # another (e.g. 70 zero bytes are an over-long header, or just more bytes of a skipped body)
+                        was = b.connectionAbandoned
+                        if kind == "rxbad":
+                            chunk = b"\x00" * 70
+                        else:
+                            chunk = PONG
+                            if self.stream is not None and self.spos < len(self.stream):
+                                chunk = self.stream[self.spos:self.spos + max(1, size)]
+                                self.spos += len(chunk)
+                        o.kinds.append(chunk_kind(b, chunk))
+                        o.payloads.append(chunk.hex())
+                        b.dataReceived(chunk)
+                        actual = "rxbad" if (kind == "rxbad" and was) or (not was and b.connectionAbandoned) else "rx"
+                        o.events[-1] = (actual, t)
+                        if actual == "rxbad" and not was:
+                            o.kinds[-1] = "error-chunk"
                     elif kind == "close":
                         b.connectionLost(failure.Failure(ConnectionDone()))
                         if o.closed_at is None:
@@ -180,10 +199,19 @@ class Run:
         return o
 
 
-def run_schedule(K, T, events, exact=True, t0=0, with_call=0):
+def run_schedule(K, T, events, exact=True, t0=0, with_call=0, payloads=None):
+    """payloads: hex chunks for the successive rx / rxbad events (default: one PONG byte per rx, 70 zero bytes per rxbad)"""
     r = Run(K, T, exact, t0, with_call)
+    i = 0
     for kind, t in events:
-        r.step(kind, t)
+        if kind in ("rx", "rxbad") and payloads is not None and i < len(payloads):
+            chunk = bytes.fromhex(payloads[i])
+            i += 1
+            r.stream = chunk
+            r.spos = 0
+            r.step("rx", t, len(chunk))
+        else:
+            r.step(kind, t)
     return r.finish()
 
 
@@ -554,3 +582,71 @@ def decode_events(constraint, data, chunks=None):
     res = dict(events=list(r.events), written=b"".join(x for (_, x) in tr.out), lost=len(tr.lose_at), exc=exc)
     restore()
     return res
+
+
+# ---------------------------------------------------------------- every KIND of inbound byte as an arrival
+from foolscap.tokens import NEG
+
+
+def inbound_stream(rng, nblocks=6):
+    """a byte stream for a live Broker that never makes it abandon the connection and contains every kind of inbound
+    byte: accepted tokens (incl. a STRING body that is buffered until complete), tokens discarded after a Violation
+    (discardCount > 0), bodies of rejected STRING / LONGINT / FLOAT tokens that are skipped (skipBytes > 0),
+    PING / PONG with multi-digit numbers (partial headers when cut), nested OPENs inside the discarded part"""
+    out = []
+    openid = 0
+    req = 1
+    for bi in range(nblocks):
+        kind = rng.choice(["unknown-clid", "unknown-clid", "unknown-method", "bad-opentype", "pings"])
+        if kind == "pings":
+            for _ in range(rng.randint(1, 4)):
+                out.append(ping_bytes(rng.choice([0, 5, 2 ** 70, 2 ** 300 + 7, 2 ** 448 - 1]), rng.choice([PING, PONG])))
+            continue
+        me = openid
+        openid += 1
+        head = [tOPEN(me)]
+        if kind == "bad-opentype":
+            head.append(tSTR(b"bogus"))
+        elif kind == "unknown-clid":
+            head += [tSTR(b"call"), tINT(req), tINT(1000 + bi)]
+            req += 1
+        else:
+            name = bytes(rng.choice(b"abcdefghijklmnopqrstuvwxyz") for _ in range(rng.randint(8, 60)))
+            head += [tSTR(b"call"), tINT(req), tINT(0), tSTR(b"nosuch_" + name)]
+            req += 1
+        out += head
+        for _ in range(rng.randint(2, 7)):
+            c = rng.random()
+            if c < 0.30:
+                n = rng.randint(40, 700)
+                out.append(tk(n, STRING, bytes(rng.randrange(256) for _ in range(n))))
+            elif c < 0.40:
+                n = rng.randint(20, 300)
+                out.append(tk(n, rng.choice([LONGINT, LONGNEG]), bytes(rng.randrange(256) for _ in range(n))))
+            elif c < 0.50:
+                out.append(tk(0, FLOAT, bytes(rng.randrange(256) for _ in range(8))))
+            elif c < 0.65:
+                out.append(rng.choice([tINT(rng.randrange(2 ** 31)), tk(rng.randrange(1, 2 ** 31), NEG)]))
+            elif c < 0.80:
+                out.append(ping_bytes(rng.choice([0, 3, 2 ** 200 + 1]), rng.choice([PING, PONG])))
+            else:
+                sub = openid
+                openid += 1
+                out += [tOPEN(sub), tSTR(b"list"), tINT(1), tSTR(b"x" * rng.randint(1, 90)), tCLOSE(sub)]
+        out.append(tCLOSE(me))
+    return b"".join(out)
+
+
+def chunk_kind(b, chunk):
+    """what kind of inbound bytes is this chunk, judged by the receiver's state before it is fed"""
+    if b.connectionAbandoned:
+        return "ignored-after-error"
+    if b.skipBytes:
+        return "skipped-body" if len(chunk) <= b.skipBytes else "skipped-body+more"
+    if len(b.buffer):
+        return "continues-partial-token"
+    if b.discardCount:
+        return "discarded-tokens"
+    if chunk in (PING, PONG):
+        return "ping-pong"
+    return "tokens"
